@@ -50,9 +50,10 @@ CHECKS = {
     "C16": {
         "groups": [
             {"pkg": "Havoc/pkg/service", "entries": ["H_c16_service_close"]},
+            {"pkg": "Havoc/cmd/server", "with": SRV_WITH, "entries": ["H_c16_listener_steps"], "no_native_witness": True, "no_native_replay": True},
         ],
-        "bounds": "service registry: 1..3 connections, 0..3 agent types and 0..3 listeners with arbitrary ownership, any one connection closing.",
-        "outside": "ExC2 endpoints registered through the teamserver (not removed on disconnect: see DESIGN.md), built-in listener registry (not built in this revision), real http.Server shutdown",
+        "bounds": "service registry: 1..3 connections, 0..3 agent types and 0..3 listeners with arbitrary ownership, any one connection closing; built-in registry: 1..3 add/remove operations over two names and the SMB and External kinds.",
+        "outside": "HTTP listener start/stop/edit (gin engine, http.Server), ExC2 endpoints registered by a service connection (not removed on disconnect: see DESIGN.md), failed starts",
         "min_completed": 3,
     },
     "C12": {
@@ -111,9 +112,9 @@ CHECKS = {
     },
     "C11": {
         "groups": [
-            {"pkg": "Havoc/cmd/server", "with": SRV_WITH, "entries": ["H_c11_append", "H_c11_replay", "H_c11_fanout", "H_c11_fault"], "no_native_witness": True, "no_native_replay": True},
+            {"pkg": "Havoc/cmd/server", "with": SRV_WITH, "entries": ["H_c11_append", "H_c11_replay", "H_c11_fanout", "H_c11_fault", "H_c11_listener_prune"], "no_native_witness": True, "no_native_replay": True},
         ],
-        "bounds": "append: 0..3 retained events + one event with arbitrary code / one-shot flag; replay: 0..3 retained events, 0..2 agents with symbolic active flag; fan-out: 1..3 clients, any excluded id, arbitrary event code; fault: 2..3 sends/broadcasts to two clients with a write fault possible at every write.",
+        "bounds": "append: 0..3 retained events + one event with arbitrary code / one-shot flag; replay: 0..3 retained events, 0..2 agents with symbolic active flag; fan-out: 1..3 clients, any excluded id, at most one dead transport, arbitrary event code; listener pruning: 1..4 retained listener/chat events of 5 kinds; fault: 2..3 sends/broadcasts to two clients with a write fault possible at every write.",
         "outside": "a peer that stalls without error (needs time); websocket framing; concurrent broadcasters",
         "min_completed": 3,
     },
